@@ -95,6 +95,34 @@ func (c *Ctx) claimConstruction() {
 		c.Bad("C10.1-claim-construction", fi.Obj.Name(), fi.Decl.Pos(), "pods are not claimed through NewPodControllerRefManager(...).ClaimPods")
 		return
 	}
+	// "pods controlled by S that stop matching are released": the claim can only release what it is shown, so the pods it is
+	// handed are every pod of the namespace (the lister asked with labels.Everything()), not those the selector still finds
+	{
+		good, why := false, "the pods handed to ClaimPods do not come from a lister List call in this function"
+		if id := rootIdent(claimCall.Args[len(claimCall.Args)-2]); id != nil || true {
+			var podsArg ast.Expr
+			for _, a := range claimCall.Args {
+				if types.TypeString(info.TypeOf(a), nil) == "[]*k8s.io/api/core/v1.Pod" {
+					podsArg = a
+				}
+			}
+			if podsArg != nil {
+				if src, ok := ast.Unparen(defRHSOr(fi, info, podsArg)).(*ast.CallExpr); ok {
+					for _, st := range c.G.Sites {
+						if st.Call == src && st.Class == "cached-read" && st.Verb == "List" && len(src.Args) == 1 {
+							good, why = false, "the lister is asked with "+types.ExprString(src.Args[0])+": a pod of this set whose labels were changed is not listed, so it is never released (it keeps its owner reference, blocks its ordinal, and is garbage-collected with the set)"
+							if ev, ok := ast.Unparen(src.Args[0]).(*ast.CallExpr); ok {
+								if f := gf.StaticCallee(info, ev); f != nil && f.FullName() == "k8s.io/apimachinery/pkg/labels.Everything" {
+									good = true
+								}
+							}
+						}
+					}
+				}
+			}
+		}
+		c.Check(good, "C10.1-claim-sees-every-pod", fi.Obj.Name()+": pods handed to ClaimPods", claimCall.Pos(), "listed with labels.Everything(): pods that stopped matching are seen, and released", why)
+	}
 	c.Check(fn.Term(mgr.Args[1]).Key() == fn.Term(sets[0]).Key() && fn.Term(mgr.Args[2]).Key() == fn.Term(selParam).Key(), "C10.1-claim-construction",
 		fi.Obj.Name()+": NewPodControllerRefManager(controller, selector)", mgr.Pos(), "the manager is built for this set and the selector handed in by sync", "the claim manager is built with another controller or selector")
 	// sync computes that selector from set.Spec.Selector
@@ -1026,4 +1054,12 @@ func (c *Ctx) uncachedReadsAreQuorumReads() {
 			"the read that is to confirm the set may be answered from the API server's watch cache: "+why+"; a set deleted or replaced a moment ago then still passes the check and adopts")
 	}
 	c.Floor(rule+"-sites", n, 1)
+}
+
+// defRHSOr: the expression assigned to the identifier e (its last definition in fi), or e itself.
+func defRHSOr(fi *load.FuncInfo, info *types.Info, e ast.Expr) ast.Expr {
+	if d := defRHS(fi, info, e); d != nil {
+		return d
+	}
+	return e
 }
